@@ -139,8 +139,8 @@ ANNEX_TIERS = [  # IEC 61131-3 Annex B.3.1, loosest first; operator token -> DSL
 ]
 
 
-def rule_prec(ctx, rep, g):
-    r = rep.rule("R-C01-prec", "the precedence! block of rule `expression` has the tiers, operators, left-associativity and operator constants of "
+def rule_prec(ctx, rep, g, rid="R-C01-prec"):
+    r = rep.rule(rid, "the precedence! block of rule `expression` has the tiers, operators, left-associativity and operator constants of "
                                "IEC 61131-3 Annex B.3.1 (OR < XOR < AND < =,<> < relational < +,- < *,/,MOD < ** < unary < primary)", floor=15, floor_what="binary operator arms")
     ex = g.rules.get("expression")
     prec = None
@@ -150,7 +150,7 @@ def rule_prec(ctx, rep, g):
                 if e.prim.kind == "prec":
                     prec = e.prim
     if prec is None:
-        rep.error("R-C01-prec", "no precedence! block in rule expression")
+        rep.error(rid, "no precedence! block in rule expression")
         return
     where0 = "%s:%d" % (PARSER_FILE, prec.line)
     levels = prec.levels
